@@ -43,13 +43,13 @@ theorem view_defined (H : Heap) (hi : Inv H) (hdi : DInv H) (c : Nat) (hc : c < 
     cases hr : args.headers with
     | none => exact ⟨none, rfl⟩
     | some n =>
-      obtain ⟨u, h1, _⟩ := optParams_user hdi (hh n hr)
+      obtain ⟨d, u, h1, _⟩ := optParams_user hdi (hh n hr)
       exact ⟨_, h1⟩
   obtain ⟨pd, hpd⟩ : ∃ d, optParams H args.params = some d := by
     cases hr : args.params with
     | none => exact ⟨none, rfl⟩
     | some n =>
-      obtain ⟨u, _, h2⟩ := optParams_user hdi (hp n hr)
+      obtain ⟨d, u, _, h2⟩ := optParams_user hdi (hp n hr)
       exact ⟨_, h2⟩
   rw [sentCore_eq, hv, hhd, hpd]
   simp only [pureSend]
@@ -254,6 +254,28 @@ theorem url (impl : Impl) (ra : RA) (m : Option Str) (pd : Option UDict) (data :
   by_cases h1 : endsWithSlash impl.address = true <;>
     by_cases h2 : startsWithSlash (withQuery ra.path pd) = true <;> simp_all
 
+/-- **Params are an association list, not a map.** The `params=` object (a dict, or a list / tuple
+of pairs in which a key may repeat) is read as the list of its `(key, str(value))` pairs: every pair
+is kept, in order, and each contributes `quote_plus(key)=quote_plus(str(value))` to the query, joined
+by `&`. -/
+theorem params_all_pairs (H : Heap) (r : Nat) (u : UDict) (h : optParams H (some r) = some (some u)) :
+    ∃ d, H.dicts[r]? = some d ∧ u.length = d.length ∧ u.map (·.1) = d.map (·.1) ∧
+      (∀ (i : Nat) (k : Str) (v : HVal), d[i]? = some (k, v) →
+        ∃ t, HVal.text v = some t ∧ u[i]? = some (k, t)) ∧
+      (∀ kv, urlencode [kv] = pairText kv) ∧
+      (∀ kv kv' rest, urlencode (kv :: kv' :: rest) = pairText kv ++ '&' :: urlencode (kv' :: rest)) := by
+  simp only [optParams] at h
+  cases hd : H.dicts[r]? with
+  | none => simp [hd] at h
+  | some d =>
+    simp only [hd] at h
+    cases ht : toUDict d with
+    | none => simp [ht] at h
+    | some u' =>
+      simp [ht] at h; subst h
+      obtain ⟨h1, h2, h3⟩ := toUDict_spec ht
+      exact ⟨d, rfl, h2, h1, h3, urlencode_single, urlencode_cons⟩
+
 /-- **Method**: the given one in upper case; without one, `POST` iff the body is truthy. -/
 theorem method (impl : Impl) (ra : RA) (pd : Option UDict) (data : Body) (resp : Except Err J) :
     (∀ c r, (assemble impl ra (some (c :: r)) pd data resp).method = upper (c :: r)) ∧
@@ -307,17 +329,17 @@ connection with own adapters `own` derived from a parent with adapters `par`, th
 see the response first and the own ones produce the result; the value of every processor is passed on
 as it is — also when it is empty (`[]`, `{}`, `""`, `0`, `False`, `None`); the adapters of the
 repository (prefix, auth) do not touch it. -/
-theorem response_chain (own par : List Adapter) (raw : J) :
-    (respFold (own ++ par) raw = match respFold par raw with
+theorem response_chain (own par : List Adapter) (dec0 : J) :
+    (respFold (own ++ par) dec0 = match respFold par dec0 with
       | .ok v => respFold own v
       | .error e => .error e) ∧
-    (∀ a, respFold [a] raw = procResp a raw) ∧ respFold [] raw = .ok raw ∧
-    (∀ as, respFold as raw = as.reverse.foldl (fun acc a => match acc with
+    (∀ a, respFold [a] dec0 = procResp a dec0) ∧ respFold [] dec0 = .ok dec0 ∧
+    (∀ as, respFold as dec0 = as.reverse.foldl (fun acc a => match acc with
       | .ok v => procResp a v
-      | .error e => .error e) (.ok raw)) ∧
+      | .error e => .error e) (.ok dec0)) ∧
     (∀ a v, (pfxOf a).isSome ∨ (authHdrOf a).isSome → procResp a v = .ok v) ∧
-    (∀ a as v w, respFold as raw = .ok v → procResp a v = .ok w → respFold (a :: as) raw = .ok w) :=
-  ⟨respFold_append own par raw, fun a => respFold_single a raw, rfl, fun as => respFold_eq_foldl as raw,
+    (∀ a as v w, respFold as dec0 = .ok v → procResp a v = .ok w → respFold (a :: as) dec0 = .ok w) :=
+  ⟨respFold_append own par dec0, fun a => respFold_single a dec0, rfl, fun as => respFold_eq_foldl as dec0,
    fun a v h => procResp_builtin a v h, fun a as v w h1 h2 => by simp [respFold, h1, h2]⟩
 
 /-- The value `do_request` returns through connection `c` is that fold over `c.adapters`, applied to
@@ -401,7 +423,7 @@ theorem frame_reachable (ops0 ops : List Op) (c : Nat) (hc : c < (run Heap.empty
   obtain ⟨hi, hd⟩ := reachable_inv ops0
   have lt : ∀ n, n ∈ (run Heap.empty ops0).userDicts → n < (run Heap.empty ops0).dicts.length := by
     intro n hn
-    obtain ⟨u, hu⟩ := hd n hn
+    obtain ⟨u, hu, _⟩ := hd n hn
     exact (List.getElem?_eq_some_iff.mp hu).1
   exact ⟨frame _ hi ops c hc hno args (fun n h => lt n (hh n h)) (fun n h => lt n (hp n h)),
     (view_defined _ hi hd c hc args hh hp).2⟩
@@ -437,7 +459,7 @@ theorem caller_unchanged (H : Heap) (hi : Inv H) (ops : List Op) :
     exact run_userList hi hl ops hno
 
 /-- **Clone** with nothing, one adapter or a list object `[a₁…aₙ]` of the caller (`as` is what
-`own` denotes): the new caller (number `H.callers.length`) has the class's prefix map, an empty cache,
+`own` denotes): the new caller (number `H.callers.length`) has the original's class and prefix map, an empty cache,
 and a new connection whose adapters are `a₁…aₙ` followed by the original's, on the original's
 `conn_impl`; the original caller, every existing connection, the caller's dictionaries and lists are
 unchanged. -/
@@ -446,7 +468,7 @@ theorem clone_list (H : Heap) (hi : Inv H) (k : Nat) (cl : Caller) (own : Own)
     (hk : H.callers[k]? = some cl) (hv : viewCore H cl.conn = some (pc, addr, sid, pl))
     (ho : ownAdapters H own = some as) :
     ∃ H', step H (.clone k own) = (H', .ok (.ref H.callers.length)) ∧
-      H'.callers[H.callers.length]? = some ⟨H.conns.length, cl.pmap, []⟩ ∧
+      H'.callers[H.callers.length]? = some ⟨H.conns.length, cl.pmap, [], cl.cls⟩ ∧
       viewCore H' H.conns.length = some (⟨pc.impl, H.lists.length, true⟩, addr, sid, as ++ pl) ∧
       (∀ j, j < H.callers.length → H'.callers[j]? = H.callers[j]?) ∧
       (∀ c, c < H.conns.length → viewCore H' c = viewCore H c) ∧
@@ -455,9 +477,9 @@ theorem clone_list (H : Heap) (hi : Inv H) (k : Nat) (cl : Caller) (own : Own)
   obtain ⟨hn, hview⟩ := viewCore_mkConn_new hmk hv ho
   obtain ⟨_, _, _, _, _, _, _, _, hd, hcal, _⟩ := mkConn_spec hmk
   have hst : step H (.clone k own) =
-      ({ H1 with callers := H1.callers ++ [⟨n, cl.pmap, []⟩] }, .ok (.ref H1.callers.length)) := by
+      ({ H1 with callers := H1.callers ++ [⟨n, cl.pmap, [], cl.cls⟩] }, .ok (.ref H1.callers.length)) := by
     simp only [step, hk, hmk]
-  refine ⟨{ H1 with callers := H1.callers ++ [⟨n, cl.pmap, []⟩] }, by rw [hst, hcal], ?_, ?_, ?_, ?_, hd.1, ?_⟩
+  refine ⟨{ H1 with callers := H1.callers ++ [⟨n, cl.pmap, [], cl.cls⟩] }, by rw [hst, hcal], ?_, ?_, ?_, ?_, hd.1, ?_⟩
   · simp [hcal, hn]
   · rw [viewCore_callers, ← hn]; exact hview
   · intro j hj
@@ -501,6 +523,47 @@ theorem get_conn_first (H : Heap) (k : Nat) (cl : Caller) (cs : List Str) (comp 
       rw [hcal]; simp [hlt]
     simp [getConn, this, hc, hp, lookup_append_new _ _ _ hn]
 
+/-- **Which component a wrapper uses.** `k.m(…)` runs the body of the first class in Python's MRO
+whose body defines `m` (`bodyClass`), and `get_conn()` inside it takes the components from the
+table `_MCALLERS_METAS` of `type(k)`: the request is `doCall` with those components. -/
+theorem call_component (H : Heap) (k : Nat) (m : Str) (args : Args) (cl : Caller) (cd : ClassDef) (b : Nat)
+    (comps : Comps) (hk : H.callers[k]? = some cl) (hc : H.classes[cl.cls]? = some cd)
+    (hb : bodyClass H.classes m cd.mro = some b) (hm : lookup cd.metas m = some comps) :
+    step H (.call k m args) = doCall H k comps { args with path := args.path ++ bodySuffix b } := by
+  simp [step, hk, hc, hb, hm]
+
+/-- **The table of a class**, as the metaclass computes it when the class is created: a wrapper of
+the class body wins; otherwise the entry comes from the first direct base (in the order of the
+class statement) whose table has the name — a depth-first, first-base-first search. For single
+inheritance this is the nearest definition up the chain, i.e. what the MRO selects; with several
+bases it differs from the MRO exactly when a later base overrides a wrapper that an earlier base only
+inherits (see the example below and `known_findings`). -/
+theorem metas_first_base (H : Heap) (bases mro : List Nat) (pmap : Option UDict) (own : List (Str × Comps))
+    (bs : List ClassDef) (hb : bases.mapM (fun b => H.classes[b]?) = some bs) (m : Str) :
+    ∃ cd, (step H (.newClass bases mro pmap own)).1.classes = H.classes ++ [cd] ∧
+      cd.bases = bases ∧ cd.mro = mro ∧ cd.own = own ∧
+      lookup cd.metas m = (match lookupLast own m with
+        | some c => some c
+        | none => firstSome (bs.map fun b => lookupLast b.metas m)) ∧
+      (∀ p, bs = [p] → lookup cd.metas m = match lookupLast own m with
+        | some c => some c
+        | none => lookupLast p.metas m) := by
+  refine ⟨_, by simp [step, hb]; rfl, rfl, rfl, rfl, ?_, ?_⟩
+  · rw [lookup_mergeMetas, List.map_map]; rfl
+  · intro p hp
+    subst hp
+    rw [lookup_mergeMetas]
+    cases lookupLast own m <;> simp [firstSome]
+    cases lookupLast p.metas m <;> rfl
+
+/-- The prefix map of a caller is the class attribute as Python finds it: the map of the first class
+in the MRO whose body defines `_HTTP_PREFIX_MAP`, `{}` if none does. -/
+theorem caller_pmap (cs : List ClassDef) (c : Nat) (rest : List Nat) (cd : ClassDef) (h : cs[c]? = some cd) :
+    classPmap cs [] = [] ∧
+    (∀ p, cd.pmap = some p → classPmap cs (c :: rest) = p) ∧
+    (cd.pmap = none → classPmap cs (c :: rest) = classPmap cs rest) := by
+  refine ⟨rfl, fun p hp => by simp [classPmap, h, hp], fun hp => by simp [classPmap, h, hp]⟩
+
 /-! ## Non-vacuity: concrete histories evaluated by the kernel -/
 
 private def hB : Adapter := mkBasic b64enc "u".toList "p".toList
@@ -534,6 +597,26 @@ example : respFold [.nullify, .compact, .unwrap "result".toList]
 example : respFold [.count, .boom false, .count] (.arr .nil) = .error .valueError := by decide +kernel
 example : (J.obj (.cons "é".toList (.arr (.cons [] (.num (-7)) (.cons [] (.str "a\"\n😀".toList) .nil))) .nil)).dumps
     = "{\"\\u00e9\": [-7, \"a\\\"\\n\\ud83d\\ude00\"]}".toList := by decide +kernel
+private def diamond (cFirstA : Bool) : List Op :=
+  [ .newClass [] [0] (some [("common".toList, "/common".toList), ("front".toList, "/front".toList)])
+      [("ping".toList, some ["common".toList])],                                  -- 0 Base
+    .newClass [0] [1, 0] none [("ping".toList, some ["front".toList])],           -- 1 A(Base) overrides ping
+    .newClass [0] [2, 0] none [],                                                  -- 2 B(Base)
+    if cFirstA then .newClass [1, 2] [3, 1, 2, 0] none [] else .newClass [2, 1] [3, 2, 1, 0] none [] ]
+/-- `class C(A, B)`: the table agrees with the MRO (A.ping, component front). `class C(B, A)`: the MRO
+still selects A.ping, but the table holds the entry B inherited from Base (component common) — the
+code as it is (reported as a finding; the correspondence runs confirm that the real metaclass does
+the same). -/
+example : ((run Heap.empty (diamond true)).classes[3]?.map fun cd =>
+    (bodyClass (run Heap.empty (diamond true)).classes "ping".toList cd.mro, lookup cd.metas "ping".toList))
+    = some (some 1, some (some ["front".toList])) := by decide +kernel
+example : ((run Heap.empty (diamond false)).classes[3]?.map fun cd =>
+    (bodyClass (run Heap.empty (diamond false)).classes "ping".toList cd.mro, lookup cd.metas "ping".toList))
+    = some (some 1, some (some ["common".toList])) := by decide +kernel
+/-- repeated keys of a pair sequence all reach the query, non-str values through `str()` -/
+example : (toUDict [("ids".toList, .int 1), ("x".toList, .str "y".toList), ("ids".toList, .int 2),
+    ("f".toList, .bool false), ("n".toList, .pyNone)]).map (fun u => String.ofList (urlencode u))
+    = some "ids=1&x=y&ids=2&f=False&n=None" := by decide +kernel
 /-- two authenticating layers are refused -/
 example : sentCore (run Heap.empty (ops1 ++ [.mk (.conn 2) (.one (mkToken "t".toList)) false])) 3 getArgs
     = .error .assertion := by decide +kernel
